@@ -347,6 +347,9 @@ func isMessageReader(p *Program, fn *ssa.Function) bool {
 	}
 	// a closure inside a message reader (loop body of a range-over-func, local helper) is part of it
 	if fn.Parent() != nil {
+		if isFieldHelper(p, fn) {
+			return true // an entry of a dispatch table of the field walk
+		}
 		return isMessageReader(p, fn.Parent())
 	}
 	if fn.Name() == "UnmarshalUT0311L0x" || fn.Name() == "MarshalUT0311L0x" {
@@ -378,10 +381,17 @@ func isFieldHelper(p *Program, fn *ssa.Function) bool {
 	fieldHelperMemo[fn] = 3
 	res := func() bool {
 		pk := fnPkg(fn)
-		if pk == nil || !strings.HasSuffix(pk.Pkg.Path(), codecRel) || fn.Object() == nil || fn.Object().Exported() || fn.Signature.Recv() != nil {
+		if pk != nil && strings.HasSuffix(pk.Pkg.Path(), codecRel) && fn.Parent() != nil && tableEntryOfFieldWalk(p, fn) {
+			return true // an entry of a dispatch table (per-type encoder/decoder) that only the field walk consults
+		}
+		if pk == nil || !strings.HasSuffix(pk.Pkg.Path(), codecRel) || fn.Object() == nil || fn.Object().Exported() {
+			return false
+		}
+		if recv := fn.Signature.Recv(); recv != nil && !isLocatorType(p, recv.Type()) {
 			return false
 		}
 		bufIdx := []int{}
+		locator := false
 		for i, prm := range fn.Params {
 			// the message buffer is a plain []byte; named byte-slice types (net.IP, net.HardwareAddr) are field values
 			if sl, ok := types.Unalias(prm.Type()).(*types.Slice); ok {
@@ -389,8 +399,11 @@ func isFieldHelper(p *Program, fn *ssa.Function) bool {
 					bufIdx = append(bufIdx, i)
 				}
 			}
+			if isLocatorType(p, prm.Type()) {
+				locator = true // the buffer travels inside a small struct {buffer, offset, ..} built by the field walk
+			}
 		}
-		if len(bufIdx) == 0 {
+		if len(bufIdx) == 0 && !locator {
 			return false
 		}
 		calls := 0
@@ -439,6 +452,8 @@ func isBufParam(v ssa.Value) bool {
 		case *ssa.Parameter:
 			_, ok := x.Type().Underlying().(*types.Slice)
 			return ok
+		case *ssa.Field:
+			return locatorBufferField(x.X, x.Field)
 		case *ssa.Slice:
 			v = x.X
 		case *ssa.UnOp:
@@ -446,6 +461,9 @@ func isBufParam(v ssa.Value) bool {
 			// parameter, captured by reference
 			if x.Op != token.MUL {
 				return false
+			}
+			if spilledLocatorField(x) {
+				return true
 			}
 			o := capturedParam(x.X)
 			if o == nil {
@@ -457,6 +475,258 @@ func isBufParam(v ssa.Value) bool {
 		}
 	}
 	return false
+}
+
+// A "locator" is an unexported struct type of the codec package with exactly one []byte field, every value of
+// which is built by the field walk (or one of its helpers) with the message buffer in that field:
+// type field struct{ bytes []byte; offset int; tag string }. Its []byte field is the message buffer.
+var locatorMemo = map[types.Type]int{}
+
+func isLocatorType(p *Program, t types.Type) bool {
+	if pt, ok := t.Underlying().(*types.Pointer); ok {
+		t = pt.Elem()
+	}
+	nt, ok := types.Unalias(t).(*types.Named)
+	if !ok || nt.Obj().Pkg() == nil || nt.Obj().Exported() || !strings.HasSuffix(nt.Obj().Pkg().Path(), codecRel) {
+		return false
+	}
+	switch locatorMemo[nt] {
+	case 1:
+		return true
+	case 2, 3:
+		return false
+	}
+	locatorMemo[nt] = 3
+	st, ok := nt.Underlying().(*types.Struct)
+	if !ok {
+		locatorMemo[nt] = 2
+		return false
+	}
+	bufField := -1
+	for i := 0; i < st.NumFields(); i++ {
+		if sl, ok := types.Unalias(st.Field(i).Type()).(*types.Slice); ok {
+			if b, ok := sl.Elem().Underlying().(*types.Basic); ok && b.Kind() == types.Uint8 {
+				if bufField >= 0 {
+					locatorMemo[nt] = 2
+					return false
+				}
+				bufField = i
+			}
+		}
+	}
+	if bufField < 0 || p == nil {
+		locatorMemo[nt] = 2
+		return false
+	}
+	// every store into the buffer field of a value of this type: the message buffer, inside the field walk
+	built := 0
+	for _, fn := range p.AllFuncs {
+		for _, b := range fn.Blocks {
+			for _, in := range b.Instrs {
+				st2, ok := in.(*ssa.Store)
+				if !ok {
+					continue
+				}
+				fa, ok := st2.Addr.(*ssa.FieldAddr)
+				if !ok || fa.Field != bufField {
+					continue
+				}
+				pt, ok := fa.X.Type().Underlying().(*types.Pointer)
+				if !ok || !types.Identical(pt.Elem(), nt) {
+					continue
+				}
+				if !isBufParam(st2.Val) || !(isFieldWalker(fn) || isFieldHelper(p, fn)) {
+					locatorMemo[nt] = 2
+					return false
+				}
+				built++
+			}
+		}
+	}
+	if built == 0 {
+		locatorMemo[nt] = 2
+		return false
+	}
+	locatorMemo[nt] = 1
+	return true
+}
+
+// spilledLocatorField: ld loads the buffer field of a locator parameter that go/ssa keeps in a local
+// (t0 = local T (b); *t0 = b; t1 = &t0.bytes; t2 = *t1), the local being written by that one store only.
+func spilledLocatorField(ld *ssa.UnOp) bool {
+	if ld.Op != token.MUL {
+		return false
+	}
+	fa, ok := ld.X.(*ssa.FieldAddr)
+	if !ok {
+		return false
+	}
+	al, ok := fa.X.(*ssa.Alloc)
+	if !ok || al.Referrers() == nil {
+		return false
+	}
+	var prm *ssa.Parameter
+	for _, ref := range *al.Referrers() {
+		switch r := ref.(type) {
+		case *ssa.Store:
+			if r.Addr != ssa.Value(al) {
+				return false
+			}
+			p2, ok := r.Val.(*ssa.Parameter)
+			if !ok || prm != nil {
+				return false
+			}
+			prm = p2
+		case *ssa.FieldAddr:
+			// reads of its fields; a store through one of them would be a Store with that address
+			if r.Referrers() != nil {
+				for _, r2 := range *r.Referrers() {
+					if st, ok := r2.(*ssa.Store); ok && st.Addr == ssa.Value(r) {
+						return false
+					}
+				}
+			}
+		case *ssa.DebugRef:
+		case *ssa.UnOp:
+			// the whole value read back (passed on by value)
+			if r.Op != token.MUL {
+				return false
+			}
+		default:
+			return false
+		}
+	}
+	return prm != nil && locatorBufferField(prm, fa.Field)
+}
+
+// locatorBufferField: field number fi of x (a parameter of locator type) is the message buffer.
+func locatorBufferField(x ssa.Value, fi int) bool {
+	prm, ok := x.(*ssa.Parameter)
+	if !ok || lintProgram == nil || !isLocatorType(lintProgram, prm.Type()) {
+		return false
+	}
+	t := prm.Type()
+	if pt, ok := t.Underlying().(*types.Pointer); ok {
+		t = pt.Elem()
+	}
+	st, ok := t.Underlying().(*types.Struct)
+	if !ok || fi >= st.NumFields() {
+		return false
+	}
+	sl, ok := types.Unalias(st.Field(fi).Type()).(*types.Slice)
+	if !ok {
+		return false
+	}
+	b, ok := sl.Elem().Underlying().(*types.Basic)
+	return ok && b.Kind() == types.Uint8
+}
+
+// tableEntryOfFieldWalk: fn is a function literal created by the package initialiser and stored into a
+// package-level map or slice that is loaded only by the field walk and its helpers (a per-type dispatch table of
+// encoders / decoders): called from there with the message buffer, it is part of the field walk.
+func tableEntryOfFieldWalk(p *Program, fn *ssa.Function) bool {
+	par := fn.Parent()
+	if par == nil || !(par.Name() == "init" || strings.HasPrefix(par.Name(), "init#")) || len(fn.FreeVars) != 0 {
+		return false
+	}
+	hasBuf := false
+	for _, prm := range fn.Params {
+		if sl, ok := types.Unalias(prm.Type()).(*types.Slice); ok {
+			if b, ok := sl.Elem().Underlying().(*types.Basic); ok && b.Kind() == types.Uint8 {
+				hasBuf = true
+			}
+		}
+		if isLocatorType(p, prm.Type()) {
+			hasBuf = true
+		}
+	}
+	if !hasBuf {
+		return false
+	}
+	// where does the literal go: the value of a MapUpdate / element store whose table is (stored into) a global
+	var table *ssa.Global
+	for _, b := range par.Blocks {
+		for _, in := range b.Instrs {
+			var holder ssa.Value
+			switch x := in.(type) {
+			case *ssa.MapUpdate:
+				if v := stripFuncValue(x.Value); v == ssa.Value(fn) {
+					holder = x.Map
+				}
+			case *ssa.Store:
+				if v := stripFuncValue(x.Val); v == ssa.Value(fn) {
+					if ia, ok := x.Addr.(*ssa.IndexAddr); ok {
+						holder = ia.X
+					}
+				}
+			}
+			if holder == nil {
+				continue
+			}
+			// the holder is stored into a global (directly, or it was loaded from one)
+			if ld, ok := holder.(*ssa.UnOp); ok && ld.Op == token.MUL {
+				if g, ok := ld.X.(*ssa.Global); ok {
+					table = g
+				}
+			}
+			if holder.Referrers() != nil {
+				for _, ref := range *holder.Referrers() {
+					if st, ok := ref.(*ssa.Store); ok && st.Val == holder {
+						if g, ok := st.Addr.(*ssa.Global); ok {
+							table = g
+						}
+					}
+				}
+			}
+			if sl, ok := holder.(*ssa.Slice); ok && sl.Referrers() != nil {
+				for _, ref := range *sl.Referrers() {
+					if st, ok := ref.(*ssa.Store); ok && st.Val == ssa.Value(sl) {
+						if g, ok := st.Addr.(*ssa.Global); ok {
+							table = g
+						}
+					}
+				}
+			}
+		}
+	}
+	if table == nil {
+		return false
+	}
+	loads := 0
+	for _, user := range p.AllFuncs {
+		if user == par || p.initOnly(user) {
+			continue
+		}
+		for _, b := range user.Blocks {
+			for _, in := range b.Instrs {
+				for _, op := range in.Operands(nil) {
+					if *op == ssa.Value(table) {
+						if !(isFieldWalker(user) || (user.Parent() != nil && isFieldWalker(user.Parent())) || (user != fn && isFieldHelper(p, user))) {
+							return false
+						}
+						loads++
+					}
+				}
+			}
+		}
+	}
+	return loads > 0
+}
+
+func stripFuncValue(v ssa.Value) ssa.Value {
+	for i := 0; i < 4; i++ {
+		switch x := v.(type) {
+		case *ssa.MakeClosure:
+			return x.Fn
+		case *ssa.ChangeType:
+			v = x.X
+		case *ssa.MakeInterface:
+			v = x.X
+		default:
+			return v
+		}
+	}
+	return v
 }
 
 // capturedParam: addr is a free variable bound to the spill slot of a parameter of the enclosing function
@@ -508,6 +778,10 @@ func isPlainBufParam(v ssa.Value) bool {
 		case *ssa.Parameter:
 			_, ok := types.Unalias(x.Type()).(*types.Slice)
 			return ok
+		case *ssa.Field:
+			return locatorBufferField(x.X, x.Field)
+		case *ssa.UnOp:
+			return spilledLocatorField(x)
 		case *ssa.Slice:
 			v = x.X
 		default:
@@ -545,19 +819,32 @@ func RulePanic(r *Report, p *Program, tier string, wireTypes map[string]bool) {
 	r.Rule("P3", "every unchecked type assertion is justified by the origin of the asserted value", 2)
 	r.Rule("P4", "explicit panics are reachable only through documented Must* helpers, codec defaults excluded by the layout rules, or type switches whose callers pass only handled types", 4)
 	r.Rule("P5", "no division by a value that can be zero; constant regular expressions compile", 2)
+	r.Rule("P6", "a channel is closed by code that runs once for it: in the function that made it, in a goroutine or deferred call started by that function, or under a sync.Once - not in a callback that is invoked repeatedly", 1)
 	var sites []panicSite
 	add := func(s panicSite) { sites = append(sites, s) }
+	originHasBody := map[*ssa.Function]bool{}
+	instanceTaken := map[*ssa.Function]bool{}
+	for _, fn := range p.AllFuncs {
+		if fn.Origin() == nil && fn.Blocks != nil {
+			originHasBody[fn] = true
+		}
+	}
 	for _, fn := range p.AllFuncs {
 		pk := fnPkg(fn)
 		if pk == nil || !strings.HasPrefix(pk.Pkg.Path(), modPath) {
 			continue
 		}
 		// the body of a range-over-func loop is compiled into a synthetic yield closure: it is source code
-		if fn.Synthetic != "" && !strings.Contains(fn.Synthetic, "instantiation") && !strings.Contains(fn.Synthetic, "range-over-func") {
+		if fn.Synthetic != "" && !strings.Contains(fn.Synthetic, "instantiation") && !strings.HasPrefix(fn.Synthetic, "instance of") && !strings.Contains(fn.Synthetic, "range-over-func") {
 			continue
 		}
-		if fn.Origin() != nil {
-			continue // generic bodies are analysed once, at their origin
+		if o := fn.Origin(); o != nil {
+			// generic bodies are analysed once: at their origin when it has a body of its own (functions), else
+			// (methods of generic types exist only as instantiations) at the first instantiation
+			if originHasBody[o] || instanceTaken[o] {
+				continue
+			}
+			instanceTaken[o] = true
 		}
 		for _, b := range fn.Blocks {
 			for _, in := range b.Instrs {
@@ -610,6 +897,10 @@ func RulePanic(r *Report, p *Program, tier string, wireTypes map[string]bool) {
 						}
 					}
 				case *ssa.Call:
+					if bi, ok := x.Call.Value.(*ssa.Builtin); ok && bi.Name() == "close" && len(x.Call.Args) == 1 {
+						okc, why := closeRunsOnce(fn, x)
+						add(panicSite{fn: fn, instr: x, kind: "close", rule: "P6", ok: okc, why: why, detail: "close of a channel made outside a function literal that is handed on as a callback: the callback can run again (the next datagram, the next event) and closing a closed channel panics"})
+					}
 					if f := x.Call.StaticCallee(); f != nil {
 						// Time.In, time.Date and time.ParseInLocation panic on a nil *Location (documented / "missing
 						// Location in call to Date")
@@ -711,6 +1002,66 @@ func RulePanic(r *Report, p *Program, tier string, wireTypes map[string]bool) {
 	if tier == "thorough" {
 		crossCheckBCE(r, p, sites)
 	}
+}
+
+// closeRunsOnce: the close(ch) at call runs at most once per channel. Accepted shapes: the channel was made in
+// the same function (or is a parameter/field: whoever hands it over owns that question, and LS/T rules cover the
+// library's own channels); or the function is a literal that its parent starts with `go`, defers, or calls on the
+// spot; or the close is inside the function passed to (*sync.Once).Do. Not accepted: a literal that captured the
+// channel and is passed on as a value (a handler, a callback) - it may be invoked any number of times.
+func closeRunsOnce(fn *ssa.Function, call *ssa.Call) (bool, string) {
+	ch := call.Call.Args[0]
+	if ld, ok := ch.(*ssa.UnOp); ok && ld.Op == token.MUL {
+		ch = ld.X
+	}
+	if _, captured := ch.(*ssa.FreeVar); !captured || fn.Parent() == nil {
+		return true, "closed by the function that holds the channel as its own variable, parameter or field"
+	}
+	// how is this literal used by its parent?
+	par := fn.Parent()
+	uses := 0
+	for _, b := range par.Blocks {
+		for _, in := range b.Instrs {
+			mc, ok := in.(*ssa.MakeClosure)
+			if !ok || mc.Fn != ssa.Value(fn) || mc.Referrers() == nil {
+				continue
+			}
+			for _, ref := range *mc.Referrers() {
+				switch r := ref.(type) {
+				case *ssa.Go:
+					if r.Call.Value == ssa.Value(mc) && !inLoop(r.Block()) {
+						uses++
+						continue
+					}
+					return false, ""
+				case *ssa.Defer:
+					if r.Call.Value == ssa.Value(mc) && !inLoop(r.Block()) {
+						uses++
+						continue
+					}
+					return false, ""
+				case *ssa.Call:
+					if r.Call.Value == ssa.Value(mc) && !inLoop(r.Block()) {
+						uses++
+						continue
+					}
+					// handed to sync.Once.Do
+					if f := r.Call.StaticCallee(); f != nil && calleeName(f) == "(*sync.Once).Do" {
+						uses++
+						continue
+					}
+					return false, ""
+				case *ssa.DebugRef:
+				default:
+					return false, ""
+				}
+			}
+		}
+	}
+	if uses == 0 {
+		return false, ""
+	}
+	return true, "the literal runs once: started by go / defer / an immediate call outside any loop, or under sync.Once"
 }
 
 // isSelectFallthrough: the panic go/ssa synthesises behind the case dispatch of a blocking select (no source
@@ -944,10 +1295,45 @@ func classifyAssert(p *Program, fn *ssa.Function, x *ssa.TypeAssert) panicSite {
 				s.ok, s.why = true, "asserted type is the field type established by the dominating reflect.Type comparison"
 				return s
 			}
+			// ... or by the key under which this function is registered in the field walk's per-type table
+			if kt := tableKeyType(p, fn); kt != nil && types.Identical(kt, x.AssertedType) {
+				s.ok, s.why = true, "asserted type is the reflect.Type key under which this entry of the field walk's dispatch table is registered"
+				return s
+			}
 		}
 	}
 	s.detail = "unchecked type assertion " + x.AssertedType.String() + " on " + v.String()
 	return s
+}
+
+// tableKeyType: fn is an entry of a dispatch table of the field walk keyed by reflect.Type (a map written by
+// the package initialiser): the Go type its key denotes.
+func tableKeyType(p *Program, fn *ssa.Function) types.Type {
+	if fn.Parent() == nil || !tableEntryOfFieldWalk(p, fn) {
+		return nil
+	}
+	var out types.Type
+	n := 0
+	for _, b := range fn.Parent().Blocks {
+		for _, in := range b.Instrs {
+			mu, ok := in.(*ssa.MapUpdate)
+			if !ok || stripFuncValue(mu.Value) != ssa.Value(fn) {
+				continue
+			}
+			n++
+			if ld, ok := mu.Key.(*ssa.UnOp); ok && ld.Op == token.MUL {
+				if g, ok := ld.X.(*ssa.Global); ok {
+					out = reflectTypeOfGlobal(g)
+				}
+			} else {
+				out = reflectTypeOfValue(mu.Key, 0)
+			}
+		}
+	}
+	if n != 1 {
+		return nil
+	}
+	return out
 }
 
 // reflectTypeOfGlobal: the Go type T of a package-level variable initialised with reflect.TypeOf(T{...}).
